@@ -3,7 +3,7 @@ from harness import dbgen as D
 from harness.props import c09
 
 RULE = ("databases with the same label text in several kinds and directions, labels with spaces/punctuation/empty flavour/extra "
-        "parts, generic and specific variants, case variants, Unicode line/paragraph separators and VT/FF/FS/GS/RS/NEL inside label texts; every record's dumped label is looked up in every section with "
+        "parts, generic and specific variants, case variants, shell-pattern / regex characters in labels and queries, Unicode line/paragraph separators and VT/FF/FS/GS/RS/NEL inside label texts; every record's dumped label is looked up in every section with "
         "random.choice driven over every candidate index, plus near-miss texts (case change, trailing blank, generic<->specific); "
         "label-based impersonation with an explicitly passed EMPTY database while the process default is loaded must raise DatabaseError; label-based impersonate_tcp/mtu (base packets SYN / SYN+ACK also with ECE, CWR, PSH, URG, NS set) is checked to use a record of that label, kind and direction; non-trivial = >= 1 candidate")
 ASSUMPTIONS = ["random.choice is replaced by an indexable stub (the real draw is uniform over the same candidate list)"]
@@ -29,6 +29,11 @@ def generate(R, tier):
             mid = lambda l, extra: (l[:-1] + x + extra + l[-1:]) if len(l) >= 2 and l[-1] not in " \t" and not l[0].isspace() else l
             labels = [mid(l, R.choice(["", ";", "v", ";OS"])) for l in labels]
             mlabels = [mid(l, R.choice(["", ";x"])) for l in mlabels[:2]] + [R.choice(labels)]
+        if R.random() < 0.15:                       # characters that mean something to shell patterns / regular expressions are plain label text
+            x = R.choice(["*", "?", "[L2TP]", "[a-z]", ".*", "(x)", "+", "\\", "^$"])
+            wild = lambda l: l[:-1] + x + l[-1:] if len(l) >= 2 else l
+            labels = labels + [wild(labels[0])]
+            mlabels = mlabels[:2] + [wild(mlabels[0])] + mlabels[2:]
         for kind, d in secs:
             lines.append(D.sec_header(kind, d))
             for _ in range(R.randint(1, 4)):
@@ -38,7 +43,7 @@ def generate(R, tier):
                     lines.append("sys = Linux")
                 for _ in range(R.randint(0, 2)):
                     lines.append("sig = " + D.rand_sig_line(R, kind))
-        queries = set(labels + mlabels)
+        queries = set(labels + mlabels) | {"*", "?", labels[0][:-1] + "*", labels[0][:-1] + "?", mlabels[0][:-1] + "[a-z]"}
         for l in list(queries):
             parts = l.split(":")
             queries.add(":".join(parts[:4]))
@@ -142,6 +147,18 @@ def impl_init():
                     ch = state["chosen"]
                     if ch is None or ch.line_number != res["ok"][-1]:
                         out["%s|%s|imp" % (q, SECS[si])] = "impersonation did not draw from the label's records of that kind/direction"
+                elif ("err" in res or not res.get("ok")) and si in (1, 2):
+                    # no record of that label in the base packet's direction: impersonation by that label must fail with DatabaseError,
+                    # whatever the OTHER direction (or another kind) holds under that label
+                    base = IP() / TCP(flags="S" if si == 1 else "SA", seq=1, ack=0 if si == 1 else 1, options=[("MSS", 1460)])
+                    state["pick"], state["chosen"] = 0, None
+                    try:
+                        impersonate_tcp(base, raw_label=q, database=db)
+                        out["%s|%s|imp" % (q, SECS[si])] = "impersonation by a label that has no record in the packet's direction did not raise DatabaseError"
+                    except DatabaseError:
+                        pass
+                    except Exception:
+                        pass
         if U.dump_db(db) != dump0:
             out["records|changed|imp"] = "the records filed in the database changed while they were looked up / used for impersonation"
         return out
